@@ -8,6 +8,7 @@ use vstd::prelude::*;
 use vstd::std_specs::cmp::*;
 use core::cmp::Ordering;
 verus! {
+//@prelude std_combinators
 
 // q is n/d rounded to nearest, ties away from zero (n >= 0, d > 0), stated without division
 pub open spec fn is_rha_nonneg(n: int, d: int, q: int) -> bool {
